@@ -389,7 +389,7 @@ func c19Run(c *mc.Ctx) {
 		bound = 3
 		reps = 300
 	}
-	c.Note("preemption_bound", fmt.Sprint(bound)+" (scenarios persisted on the filesystem store: 2)")
+	c.Note("preemption_bound", fmt.Sprint(bound)+" (persisted scenarios: 2)")
 	if c19SetFsYield != nil {
 		c.Note("file_operation_scheduling_points", "yes (db/fs built against the os shim: create/write/close/rename of a save are separate scheduling points)")
 	} else {
@@ -420,9 +420,10 @@ func c19Run(c *mc.Ctx) {
 					}
 					sc, slack := sc, slack
 					bound := bound
-					if bound > 2 && sc.Mode == "persisted-fs" {
-						// with the file operations of every save as scheduling points these executions are several
-						// times longer: the filesystem scenarios stay at two pre-emptions in the thorough tier
+					if bound > 2 && sc.Mode != "long-lived" {
+						// with the store calls (and, on the filesystem, the file operations of every save) as
+						// scheduling points these executions are several times longer: the persisted scenarios
+						// stay at two pre-emptions in the thorough tier
 						bound = 2
 					}
 					mc.Explore([]int{c0, c1}, bound, c.TimeUp, func(x *mc.Chooser) {
